@@ -1007,6 +1007,13 @@ Definition restore_block (sm : summary) (t c : name) (cd : coldelta O) : list ac
   | rows => [update_action O t c cd rows false]
   end.
 
+(* the stored update of a column delta: the `after` values of the rows whose encoding changed *)
+Definition store_block (t c : name) (cd : coldelta O) : list action :=
+  match changed_rows cd with
+  | [] => []
+  | _ :: _ => [update_action O t c cd (changed_rows cd) true]
+  end.
+
 Lemma changed_rows_in : forall cd r, In r (changed_rows cd) -> delta_get O cd r <> None.
 Proof.
   intros cd r H. unfold changed_rows in H. apply sort_by_In in H. apply in_map_iff in H.
@@ -1030,19 +1037,28 @@ Qed.
 Lemma cta_undo : forall (sm : summary) t c cd S U td,
   is_defunct t = false -> is_defunct c = false -> td_find O (sm_tables O sm) t = Some td ->
   (forall r, delta_get O cd r <> None -> row_after sm t r <> Some false) ->
-  exists S', changes_to_actions O sm t c cd (S, U) = Ok (S', U ++ restore_block sm t c cd).
+  changes_to_actions O sm t c cd (S, U) = Ok (S ++ store_block t c cd, U ++ restore_block sm t c cd).
 Proof.
   intros sm t c cd S U td Hdt Hdc Htd Hafter. unfold changes_to_actions.
   assert (Hnil : cd = [] \/ cd <> []) by (destruct cd; [left | right]; congruence).
   destruct Hnil as [->|Hne].
-  - exists S. unfold restore_block, restore_rows, changed_rows. cbn.
-    destruct (sum_is_created O sm t c); rewrite app_nil_r; reflexivity.
+  - unfold restore_block, restore_rows, store_block, changed_rows. cbn.
+    destruct (sum_is_created O sm t c); rewrite !app_nil_r; reflexivity.
   - rewrite match_nonnil by exact Hne. rewrite Hdt, Hdc, Htd. cbn [orb negb andb].
     pose proof (root_name_not_defunct t Hdt) as Ht. pose proof (root_name_not_defunct c Hdc) as Hc.
     rewrite Ht, Hc.
-    eexists. unfold restore_block, restore_rows.
+    unfold restore_block, restore_rows, store_block.
     match goal with |- context [sort_by Z.ltb ?l] => change (sort_by Z.ltb l) with (changed_rows cd) end.
     set (cr := changed_rows cd).
+    assert (Hcr : filter_out_gone_rows O sm t cr = cr).
+    { unfold filter_out_gone_rows. rewrite Htd. apply filter_all. intros r Hr.
+      pose proof (Hafter r (changed_rows_in cd r Hr)) as Ha. unfold row_after in Ha. rewrite Htd in Ha.
+      destruct (pres_get (td_after O td) r) as [[|]|]; try reflexivity. congruence. }
+    rewrite Hcr.
+    assert (Hst : match cr with [] => S | _ :: _ => S ++ [update_action O t c cd cr true] end =
+                  S ++ match cr with [] => [] | _ :: _ => [update_action O t c cd cr true] end)
+      by (destruct cr; [rewrite app_nil_r|]; reflexivity).
+    rewrite Hst. clear Hst.
     destruct (sum_is_created O sm t c) eqn:Ecr; cbn [andb].
     + rewrite app_nil_r. reflexivity.
     + unfold filter_out_new_rows, filter_out_gone_rows. rewrite Htd.
@@ -1073,38 +1089,38 @@ Definition delta_ok (sm : summary) (t c : name) (cd : coldelta O) : Prop :=
 
 Lemma cta_undo' : forall (sm : summary) t c cd S U td,
   td_find O (sm_tables O sm) t = Some td -> delta_ok sm t c cd ->
-  exists S', changes_to_actions O sm t c cd (S, U) = Ok (S', U ++ restore_block sm t c cd).
+  changes_to_actions O sm t c cd (S, U) = Ok (S ++ store_block t c cd, U ++ restore_block sm t c cd).
 Proof.
   intros sm t c cd S U td Htd Hok.
   assert (Hnil : cd = [] \/ cd <> []) by (destruct cd; [left | right]; congruence).
   destruct Hnil as [->|Hne].
-  - exists S. rewrite cta_nil, restore_block_nil, app_nil_r. reflexivity.
+  - rewrite cta_nil, restore_block_nil. unfold store_block, changed_rows. cbn. rewrite !app_nil_r. reflexivity.
   - destruct (Hok Hne) as [Hdt [Hdc Ha]]. eapply cta_undo; eassumption.
 Qed.
 
 Definition cols_block (sm : summary) (t : name) (td : tdelta O) (keys : list name) : list action :=
   flat_map (fun c => match cd_find O (td_deltas O td) c with Some cd => restore_block sm t c cd | None => [] end) keys.
 
+Definition cols_sblock (t : name) (td : tdelta O) (keys : list name) : list action :=
+  flat_map (fun c => match cd_find O (td_deltas O td) c with Some cd => store_block t c cd | None => [] end) keys.
+
 Lemma flush_cols : forall (sm : summary) t td keys S U,
   td_find O (sm_tables O sm) t = Some td ->
   (forall c cd, In c keys -> cd_find O (td_deltas O td) c = Some cd -> delta_ok sm t c cd) ->
-  exists S',
     fold_left (fun acc c => bind acc (fun so' => match cd_find O (td_deltas O td) c with
                                                  | Some cd => changes_to_actions O sm t c cd so'
                                                  | None => Ok so'
                                                  end)) keys (Ok (S, U)) =
-    Ok (S', U ++ cols_block sm t td keys).
+    Ok (S ++ cols_sblock t td keys, U ++ cols_block sm t td keys).
 Proof.
   intros sm t td keys. induction keys as [|c keys IH]; intros S U Htd Hok; cbn.
-  - exists S. rewrite app_nil_r. reflexivity.
+  - rewrite !app_nil_r. reflexivity.
   - destruct (cd_find O (td_deltas O td) c) as [cd|] eqn:Ec.
-    + destruct (cta_undo' sm t c cd S U td Htd (Hok c cd (or_introl eq_refl) Ec)) as [S1 H1]. rewrite H1.
-      destruct (IH S1 (U ++ restore_block sm t c cd) Htd) as [S' H'].
-      { intros c0 cd0 Hin. apply Hok. right. exact Hin. }
-      exists S'. rewrite H'. rewrite <- app_assoc. reflexivity.
-    + destruct (IH S U Htd) as [S' H'].
-      { intros c0 cd0 Hin. apply Hok. right. exact Hin. }
-      exists S'. exact H'.
+    + rewrite (cta_undo' sm t c cd S U td Htd (Hok c cd (or_introl eq_refl) Ec)).
+      rewrite IH; [rewrite <- !app_assoc; reflexivity | exact Htd|].
+      intros c0 cd0 Hin. apply Hok. right. exact Hin.
+    + rewrite IH; [reflexivity | exact Htd|].
+      intros c0 cd0 Hin. apply Hok. right. exact Hin.
 Qed.
 
 Definition table_block (sm : summary) (t : name) : list action :=
@@ -1113,30 +1129,36 @@ Definition table_block (sm : summary) (t : name) : list action :=
   | None => []
   end.
 
+Definition table_sblock (sm : summary) (t : name) : list action :=
+  match td_find O (sm_tables O sm) t with
+  | Some td => cols_sblock t td (sorted_keys (td_deltas O td))
+  | None => []
+  end.
+
 Definition all_deltas_ok (sm : summary) : Prop :=
   forall t td c cd, td_find O (sm_tables O sm) t = Some td -> cd_find O (td_deltas O td) c = Some cd -> delta_ok sm t c cd.
 
 Lemma flush_tables : forall (sm : summary) keys S U,
   all_deltas_ok sm ->
-  exists S', fold_left (fun acc t => bind acc (fun so' => flush_table O sm t so')) keys (Ok (S, U)) =
-             Ok (S', U ++ flat_map (table_block sm) keys).
+  fold_left (fun acc t => bind acc (fun so' => flush_table O sm t so')) keys (Ok (S, U)) =
+  Ok (S ++ flat_map (table_sblock sm) keys, U ++ flat_map (table_block sm) keys).
 Proof.
   intros sm keys. induction keys as [|t keys IH]; intros S U Hok; cbn.
-  - exists S. rewrite app_nil_r. reflexivity.
-  - unfold flush_table at 2. unfold table_block at 1.
+  - rewrite !app_nil_r. reflexivity.
+  - unfold flush_table at 2. unfold table_block at 1. unfold table_sblock at 1.
     destruct (td_find O (sm_tables O sm) t) as [td|] eqn:Etd.
-    + destruct (flush_cols sm t td (sorted_keys (td_deltas O td)) S U Etd) as [S1 H1].
-      { intros c cd _ Hc. eapply Hok; eassumption. }
-      rewrite H1. destruct (IH S1 (U ++ cols_block sm t td (sorted_keys (td_deltas O td))) Hok) as [S' H'].
-      exists S'. rewrite H'. rewrite <- app_assoc. reflexivity.
-    + destruct (IH S U Hok) as [S' H']. exists S'. exact H'.
+    + rewrite (flush_cols sm t td (sorted_keys (td_deltas O td)) S U Etd) by (intros c cd _ Hc; eapply Hok; eassumption).
+      rewrite IH by exact Hok. rewrite <- !app_assoc. reflexivity.
+    + rewrite IH by exact Hok. reflexivity.
 Qed.
 
 Definition all_blocks (sm : summary) : list action := flat_map (table_block sm) (sorted_keys (sm_tables O sm)).
 
+Definition all_sblocks (sm : summary) : list action := flat_map (table_sblock sm) (sorted_keys (sm_tables O sm)).
+
 Lemma flush_all_undo : forall (sm : summary) S U, all_deltas_ok sm ->
-  exists S', flush_all O sm (S, U) = Ok (S', U ++ all_blocks sm).
-Proof. intros sm S U Hok. unfold flush_all, all_blocks. apply flush_tables. exact Hok. Qed.
+  flush_all O sm (S, U) = Ok (S ++ all_sblocks sm, U ++ all_blocks sm).
+Proof. intros sm S U Hok. unfold flush_all, all_blocks, all_sblocks. apply flush_tables. exact Hok. Qed.
 
 
 (* ------------------------------------------------------------------------------------------------ *)
@@ -1213,12 +1235,12 @@ Proof.
   destruct (Z.eqb_spec r r0) as [->|Hne]; [left; congruence | right; apply IH; exact Hd].
 Qed.
 
-Lemma set_val_delta_values : forall cd rows r,
+Lemma set_val_delta_values : forall cd rows (after : bool) r,
   (forall r', In r' rows -> delta_get O cd r' <> None) ->
-  set_val O rows (delta_values O cd rows false) r =
-  if zmem r rows then match delta_get O cd r with Some (b, _) => Some b | None => None end else None.
+  set_val O rows (delta_values O cd rows after) r =
+  if zmem r rows then match delta_get O cd r with Some (b, a) => Some (if after then a else b) | None => None end else None.
 Proof.
-  intros cd rows r. induction rows as [|r0 rows IH]; intro H; cbn; [reflexivity|].
+  intros cd rows after r. induction rows as [|r0 rows IH]; intro H; cbn; [reflexivity|].
   unfold delta_values in *. cbn [flat_map].
   destruct (delta_get O cd r0) as [[b0 a0]|] eqn:E0; [|exfalso; apply (H r0); [left; reflexivity | exact E0]].
   cbn [app set_val]. rewrite IH by (intros r' Hr'; apply H; right; exact Hr').
@@ -1345,7 +1367,7 @@ Proof.
         rewrite (find_col_id O _ _ _ Ec11). rewrite Hi1'.
         name_cases c1 c.
         -- subst c1. assert (C1 = C) by congruence. subst C1. assert (Cd1 = Cd) by congruence. subst Cd1.
-           unfold vals. rewrite set_val_delta_values by exact Hrows_delta.
+           unfold vals. rewrite (set_val_delta_values cd rows false) by exact Hrows_delta.
            destruct (zmem r rows) eqn:Ez.
            ++ apply zmem_In in Ez. destruct (delta_get O cd r) as [[b a]|] eqn:Ed; [|exfalso; exact (Hrows_delta r Ez Ed)].
               right. left. pose proof (Hbef _ _ _ _ _ _ _ Efd Ecd Ed) as Hb.
@@ -1534,8 +1556,7 @@ Proof.
     destruct (Hnd_names _ _ Hft) as [Hdt Hdc]. split; [exact Hdt|]. split; [exact (Hdc _ _ Hfc)|].
     intros r Hg. rewrite <- Hdo in Hg. destruct (Hlive_d t c r Hg) as [Td' [Cd' [Hft' [_ Hr']]]].
     destruct Hmarks as [_ [_ [_ M4]]]. rewrite M4. eapply Hafter; eassumption. }
-  destruct (flush_all_undo (m_sum O mc) (m_stored O mc) (m_undo O mc) Hok) as [S' Hflush].
-  rewrite Hflush in H. cbn in H. inversion H; subst s' out; clear H. cbn [o_undo].
+  rewrite (flush_all_undo (m_sum O mc) (m_stored O mc) (m_undo O mc) Hok) in H. cbn in H. inversion H; subst s' out; clear H. cbn [o_undo].
   rewrite Hu. rewrite rev_app_distr, (replay_doc_app O).
   destruct (replay_all_blocks (m_doc O md) (m_sum O mc) (m_doc O mc)) as [s1 [Hr1 Hs1]].
   - apply near_of_calc_rel. exact Hrel.
@@ -1703,6 +1724,314 @@ Proof.
   apply andb_true_iff in Hok. destruct Hok as [Hok H5]. apply andb_true_iff in Hok. destruct Hok as [Hok H4].
   apply andb_true_iff in Hok. destruct Hok as [Hok H3]. apply andb_true_iff in Hok. destruct Hok as [H1 H2].
   eapply calc_bundle_undo; try eassumption.
+  - apply wf_stateb_sound. exact H1.
+  - apply names_okb_sound. exact H2.
+  - apply (lossless_runb_sound O). exact H3.
+  - apply names_run_sound. exact H4.
+  - intros m Hm. rewrite Hm in H5. apply calcs_okb_sound. exact H5.
+Qed.
+
+
+(* ------------------------------------------------------------------------------------------------ *)
+(* redo: the stored updates of the flush, replayed on what the doc actions give, reproduce the final document *)
+
+Definition near2 (K : list (name * name)) (sc : state) (sm : summary) (s1 : state) : Prop :=
+  forall t, match find_table O s1 t, find_table O sc t with
+            | None, None => True
+            | Some T, Some Tc =>
+                (forall r, In r (t_rows O T) <-> In r (t_rows O Tc)) /\
+                forall c, match find_col O (t_cols O T) c, find_col O (t_cols O Tc) c with
+                          | None, None => True
+                          | Some C, Some Cc =>
+                              c_info O C = c_info O Cc /\
+                              forall r, In r (t_rows O T) ->
+                                venc O (col_get O C r) (col_get O Cc r) = true \/
+                                (~ pair_mem t c K /\ In r (changed_rows (delta_of sm t c)))
+                          | _, _ => False
+                          end
+            | _, _ => False
+            end.
+
+(* the final cell of a delta holds its `after` (normalised) *)
+Definition afters_ok (sc : state) (sm : summary) : Prop :=
+  forall t Tc c Cc r b a, find_table O sc t = Some Tc -> find_col O (t_cols O Tc) c = Some Cc -> In r (t_rows O Tc) ->
+    delta_get O (delta_of sm t c) r = Some (b, a) ->
+    venc O (col_get O Cc r) (vnorm O (ci_type (c_info O Cc)) a) = true.
+
+Lemma afters_of_calc_rel : forall sd sm s, calc_rel sd sm s -> afters_ok s sm.
+Proof.
+  intros sd sm s H t Tc c Cc r b a Hf Hc Hr Hd. specialize (H t). rewrite Hf in H.
+  destruct (find_table O sd t) as [Td|]; [|contradiction]. destruct H as [_ Hcols]. specialize (Hcols c). rewrite Hc in Hcols.
+  destruct (find_col O (t_cols O Td) c) as [Cd|]; [|contradiction]. destruct Hcols as [_ Hcells].
+  specialize (Hcells r Hr). rewrite Hd in Hcells. apply Hcells.
+Qed.
+
+Lemma near2_init : forall sd sm sc s1,
+  calc_rel sd sm sc -> wf_state O sd -> seq O s1 sd -> near2 [] sc sm s1.
+Proof.
+  intros sd sm sc s1 Hrel Hwf Hseq t. specialize (Hrel t). specialize (Hseq t).
+  destruct (find_table O s1 t) as [T1|], (find_table O sd t) as [Td|] eqn:Efd; cbn in Hseq;
+    destruct (find_table O sc t) as [Tc|]; try contradiction; try exact I.
+  destruct Hseq as [Hr1 Hc1]. destruct Hrel as [Hr2 Hc2].
+  split; [intro r; rewrite (Hr1 r); symmetry; apply Hr2|].
+  intro c. specialize (Hc1 c). specialize (Hc2 c).
+  destruct (find_col O (t_cols O T1) c) as [C1|], (find_col O (t_cols O Td) c) as [Cd|] eqn:Ecd; cbn in Hc1;
+    destruct (find_col O (t_cols O Tc) c) as [Cc|]; try contradiction; try exact I.
+  destruct Hc1 as [Hi1 Hcells1]. destruct Hc2 as [Hi2 Hcells2].
+  split; [congruence|]. intros r Hin.
+  destruct (in_dec Z.eq_dec r (changed_rows (delta_of sm t c))) as [Hch|Hch]; [right; split; [intros []|exact Hch]|].
+  left. destruct (Hcells1 r Hin) as [[]|H1].
+  assert (Hrc : In r (t_rows O Tc)) by (apply Hr2; apply Hr1; exact Hin).
+  specialize (Hcells2 r Hrc).
+  eapply (venc_trans O L); [exact H1|]. apply (venc_sym O L).
+  destruct (delta_get O (delta_of sm t c) r) as [[b a]|] eqn:Ed; [|exact Hcells2].
+  destruct Hcells2 as [Ha Hb].
+  destruct (venc O b a) eqn:Eba; [|exfalso; apply Hch; eapply changed_rows_complete; eassumption].
+  destruct (Hwf _ _ Efd) as [_ [_ Hnorm]]. pose proof (Hnorm _ _ Ecd r (proj1 (Hr1 r) Hin)) as Hn.
+  eapply (venc_trans O L); [exact Ha|]. rewrite Hi2.
+  eapply (venc_trans O L); [apply (vnorm_enc O L); apply (venc_sym O L); exact Eba|].
+  eapply (venc_trans O L); [apply (vnorm_enc O L); exact Hb | exact Hn].
+Qed.
+
+Lemma near2_final : forall K sc sm s1,
+  near2 K sc sm s1 -> (forall t c r, delta_get O (delta_of sm t c) r <> None -> pair_mem t c K) -> seq O s1 sc.
+Proof.
+  intros K sc sm s1 H HK t. specialize (H t).
+  destruct (find_table O s1 t) as [T|], (find_table O sc t) as [Tc|]; cbn; try exact H.
+  destruct H as [Hr Hc]. split; [exact Hr|]. intro c. specialize (Hc c).
+  destruct (find_col O (t_cols O T) c) as [C|], (find_col O (t_cols O Tc) c) as [Cc|]; cbn; try exact Hc.
+  destruct Hc as [Hi Hcells]. split; [exact Hi|]. intros r Hin.
+  destruct (Hcells r Hin) as [H1|[Hn Hch]]; [right; exact H1|].
+  exfalso. apply Hn. apply (HK t c r). apply changed_rows_in. exact Hch.
+Qed.
+
+Lemma sblock_step : forall K sc sm s1 t c,
+  near2 K sc sm s1 -> wf_state O sc -> afters_ok sc sm -> live_in sc sm ->
+  exists s', replay_doc O (store_block t c (delta_of sm t c)) s1 = Ok s' /\ near2 ((t, c) :: K) sc sm s'.
+Proof.
+  intros K sc sm s1 t c Hnear Hwf Haft Hlive.
+  set (cd := delta_of sm t c). unfold store_block. fold cd.
+  remember (changed_rows cd) as rows eqn:Hrowsdef.
+  assert (Hrows_delta : forall r, In r rows -> delta_get O cd r <> None) by (intros r Hr; rewrite Hrowsdef in Hr; apply changed_rows_in; exact Hr).
+  assert (Hnil : rows = [] \/ rows <> []) by (destruct rows; [left | right]; congruence).
+  destruct Hnil as [Hnil|Hne].
+  - rewrite Hnil. cbn. exists s1. split; [reflexivity|].
+    intro t1. specialize (Hnear t1).
+    destruct (find_table O s1 t1) as [T|], (find_table O sc t1) as [Tc|]; try exact Hnear.
+    destruct Hnear as [Hr Hc]. split; [exact Hr|]. intro c1. specialize (Hc c1).
+    destruct (find_col O (t_cols O T) c1) as [C|], (find_col O (t_cols O Tc) c1) as [Cc|]; try exact Hc.
+    destruct Hc as [Hi Hcells]. split; [exact Hi|]. intros r Hin.
+    destruct (Hcells r Hin) as [H1|[Hn Hch]]; [left; exact H1|].
+    right. split; [|exact Hch]. apply near_mono_cell; [exact Hn|].
+    intro Heq. inversion Heq; subst t1 c1. fold cd in Hch. rewrite <- Hrowsdef, Hnil in Hch. destruct Hch.
+  - destruct rows as [|r0 rows0] eqn:Erows; [contradiction|]. cbv beta iota. rewrite <- Erows in *. clear Hne.
+    assert (Hr0 : In r0 rows) by (rewrite Erows; left; reflexivity).
+    destruct (Hlive t c r0 (Hrows_delta r0 Hr0)) as [Tc [Cc [Efc [Ecc _]]]].
+    pose proof (Hnear t) as Hnt. rewrite Efc in Hnt.
+    destruct (find_table O s1 t) as [T|] eqn:Ef1; [|contradiction].
+    destruct Hnt as [Hrws Hcols]. pose proof (Hcols c) as Hcc. rewrite Ecc in Hcc.
+    destruct (find_col O (t_cols O T) c) as [C|] eqn:Ec1; [|contradiction].
+    destruct Hcc as [Hinfo Hcells].
+    pose proof (find_table_id O _ _ _ Ef1) as HidT.
+    set (vals := delta_values O cd rows true).
+    assert (Hlen : length vals = length rows) by (apply delta_values_length; exact Hrows_delta).
+    assert (Hcid : c <> id_name) by (eapply wf_col_not_id; [apply (Hwf _ _ Efc) | exact Ecc]).
+    assert (Hok : colvals_ok O rows [(c, vals)] = true).
+    { unfold colvals_ok. cbn [map fst snd nodup_names nmem forallb negb andb].
+      rewrite (proj2 (Nat.eqb_eq _ _) Hlen).
+      assert (name_eqb id_name c = false) as -> by (apply name_eqb_neq; congruence). reflexivity. }
+    assert (Hall : all_in rows (t_rows O T) = true).
+    { apply all_in_iff. intros r Hr. apply Hrws. destruct (Hlive t c r (Hrows_delta r Hr)) as [Tc' [Cc' [Hf' [_ Hin']]]].
+      assert (Tc' = Tc) by congruence. subst Tc'. exact Hin'. }
+    assert (Hne : rows <> []) by (rewrite Erows; discriminate).
+    destruct (apply_BulkUpdate_ok O s1 t T rows [(c, vals)] Ef1 Hok Hne Hall) as [cs [u' [Hcs Hstep]]].
+    { intros c0 [Hc0|[]]. cbn in Hc0. subst c0. rewrite Ec1. discriminate. }
+    rewrite Hrowsdef. fold cd. rewrite <- Hrowsdef.
+    cbn [replay_doc]. unfold update_action. fold vals. rewrite Hstep. cbn [bind fst].
+    eexists. split; [reflexivity|].
+    assert (Hndc : nodup_names (map fst [(c, vals)]) = true) by reflexivity.
+    destruct (set_columns_spec O _ _ _ _ Hndc Hcs) as [_ Hspec].
+    intro t1. rewrite find_put_table by exact HidT. name_cases t1 t.
+    + subst t1. rewrite Ef1, Efc. split; [exact Hrws|]. cbn [t_cols t_rows]. intro c1.
+      specialize (Hspec c1). pose proof (Hcols c1) as Hc1.
+      destruct (find_col O (t_cols O T) c1) as [C1|] eqn:Ec11.
+      * destruct (find_col O (t_cols O Tc) c1) as [Cc1|] eqn:Ecc1; [|contradiction].
+        destruct Hspec as [C1' [Hf1' [Hi1' Hg1']]]. rewrite Hf1'. destruct Hc1 as [Hi1 Hcells1].
+        split; [congruence|]. intros r Hin. rewrite Hg1'. unfold cell_after. cbn [cols_get].
+        rewrite (find_col_id O _ _ _ Ec11). rewrite ?Hi1'.
+        name_cases c1 c.
+        -- subst c1. assert (C1 = C) by congruence. subst C1. assert (Cc1 = Cc) by congruence. subst Cc1.
+           unfold vals. rewrite (set_val_delta_values cd rows true) by exact Hrows_delta.
+           destruct (zmem r rows) eqn:Ez.
+           ++ apply zmem_In in Ez. destruct (delta_get O cd r) as [[b a]|] eqn:Ed; [|exfalso; exact (Hrows_delta r Ez Ed)].
+              left. rewrite Hinfo. apply (venc_sym O L).
+              eapply Haft; try eassumption. apply Hrws. exact Hin.
+           ++ destruct (Hcells r Hin) as [H1|[Hn Hch]]; [left; exact H1|].
+              exfalso. fold cd in Hch. rewrite <- Hrowsdef in Hch. apply zmem_false in Ez. contradiction.
+        -- destruct (Hcells1 r Hin) as [H1|[Hn Hch]]; [left; exact H1|].
+           right. split; [apply near_mono_cell; [exact Hn | congruence] | exact Hch].
+      * destruct (find_col O (t_cols O Tc) c1); [contradiction|]. rewrite Hspec. exact I.
+    + specialize (Hnear t1).
+      destruct (find_table O s1 t1) as [T1|], (find_table O sc t1) as [Tc1|]; try exact Hnear.
+      destruct Hnear as [Hr1 Hc1]. split; [exact Hr1|]. intro c1. specialize (Hc1 c1).
+      destruct (find_col O (t_cols O T1) c1) as [C1|], (find_col O (t_cols O Tc1) c1) as [Cc1|]; try exact Hc1.
+      destruct Hc1 as [Hi1 Hcells1]. split; [exact Hi1|]. intros r Hin.
+      destruct (Hcells1 r Hin) as [H1|[Hn Hch]]; [left; exact H1|].
+      right. split; [apply near_mono_cell; [exact Hn | congruence] | exact Hch].
+Qed.
+
+
+Lemma cols_sblock_eq : forall (sm : summary) t td keys,
+  td_find O (sm_tables O sm) t = Some td ->
+  cols_sblock t td keys = flat_map (fun c => store_block t c (delta_of sm t c)) keys.
+Proof.
+  intros sm t td keys Htd. unfold cols_sblock. induction keys as [|c keys IH]; cbn; [reflexivity|].
+  rewrite IH. f_equal. unfold delta_of. rewrite Htd.
+  destruct (cd_find O (td_deltas O td) c); [reflexivity|]. unfold store_block, changed_rows. reflexivity.
+Qed.
+
+Definition covers (K K' : list (name * name)) (extra : list (name * name)) : Prop :=
+  forall p, In p K \/ In p extra -> In p K'.
+
+Lemma replay_scols : forall sc sm t keys K s1,
+  near2 K sc sm s1 -> wf_state O sc -> afters_ok sc sm -> live_in sc sm ->
+  exists s' K', replay_doc O (flat_map (fun c => store_block t c (delta_of sm t c)) keys) s1 = Ok s' /\
+                near2 K' sc sm s' /\ covers K K' (map (pair t) keys).
+Proof.
+  intros sc sm t keys. induction keys as [|c keys IH]; intros K s1 Hn Hwf Ha Hl; cbn [flat_map map].
+  - exists s1, K. split; [reflexivity|]. split; [exact Hn|]. intros p [H|[]]. exact H.
+  - rewrite (replay_doc_app O).
+    destruct (sblock_step K sc sm s1 t c Hn Hwf Ha Hl) as [s2 [Hr2 Hn2]]. rewrite Hr2.
+    destruct (IH _ s2 Hn2 Hwf Ha Hl) as [s3 [K3 [Hr3 [Hn3 Hc3]]]].
+    exists s3, K3. split; [exact Hr3|]. split; [exact Hn3|].
+    intros p [H|[H|H]]; apply Hc3; [left; right; exact H | left; left; exact H | right; exact H].
+Qed.
+
+Lemma replay_stables : forall sc sm tkeys K s1,
+  near2 K sc sm s1 -> wf_state O sc -> afters_ok sc sm -> live_in sc sm ->
+  exists s' K', replay_doc O (flat_map (table_sblock sm) tkeys) s1 = Ok s' /\
+                near2 K' sc sm s' /\ covers K K' (flat_map (table_pairs sm) tkeys).
+Proof.
+  intros sc sm tkeys. induction tkeys as [|t tkeys IH]; intros K s1 Hn Hwf Ha Hl; cbn [flat_map].
+  - exists s1, K. split; [reflexivity|]. split; [exact Hn|]. intros p [H|[]]. exact H.
+  - rewrite (replay_doc_app O). unfold table_sblock at 1. unfold table_pairs at 1.
+    destruct (td_find O (sm_tables O sm) t) as [td|] eqn:Etd.
+    + rewrite (cols_sblock_eq sm t td _ Etd).
+      destruct (replay_scols sc sm t (sorted_keys (td_deltas O td)) K s1 Hn Hwf Ha Hl) as [s2 [K2 [Hr2 [Hn2 Hc2]]]].
+      rewrite Hr2. destruct (IH K2 s2 Hn2 Hwf Ha Hl) as [s3 [K3 [Hr3 [Hn3 Hc3]]]].
+      exists s3, K3. split; [exact Hr3|]. split; [exact Hn3|].
+      intros p [H|H]; [apply Hc3; left; apply Hc2; left; exact H|].
+      apply in_app_or in H. destruct H as [H|H]; [apply Hc3; left; apply Hc2; right; exact H | apply Hc3; right; exact H].
+    + cbn [replay_doc]. destruct (IH K s1 Hn Hwf Ha Hl) as [s3 [K3 [Hr3 [Hn3 Hc3]]]].
+      exists s3, K3. split; [exact Hr3|]. split; [exact Hn3|]. intros p [H|H]; apply Hc3; [left | right]; exact H.
+Qed.
+
+Theorem replay_all_sblocks : forall sd sm sc s1,
+  calc_rel sd sm sc -> deltas_live sm sc -> wf_state O sd -> wf_state O sc -> seq O s1 sd ->
+  exists s', replay_doc O (all_sblocks sm) s1 = Ok s' /\ seq O s' sc.
+Proof.
+  intros sd sm sc s1 Hrel Hlive Hwfd Hwfc Hseq.
+  destruct (replay_stables sc sm (sorted_keys (sm_tables O sm)) [] s1) as [s' [K' [Hr [Hn Hc]]]].
+  - eapply near2_init; eassumption.
+  - exact Hwfc.
+  - eapply afters_of_calc_rel. exact Hrel.
+  - exact Hlive.
+  - exists s'. split; [exact Hr|]. eapply near2_final; [exact Hn|].
+    intros t c r H. apply Hc. right. pose proof (all_pairs_cover sm t c r H) as Hin. rewrite app_nil_r in Hin. exact Hin.
+Qed.
+
+(* the calc phase keeps documents well formed *)
+Lemma calc_cells_wf : forall s t c chs s', wf_state O s -> calc_cells O s t c chs = Ok s' -> wf_state O s'.
+Proof.
+  intros s t c chs s' Hwf H. unfold calc_cells in H.
+  destruct (find_table O s t) as [T|] eqn:Ef; [|discriminate].
+  destruct (find_col O (t_cols O T) c) as [C|] eqn:Ec; [|discriminate]. inversion H; subst s'; clear H.
+  destruct (Hwf _ _ Ef) as [Hnd [Hnoid Hnorm]].
+  set (C' := fold_left (fun C ch => col_set O C (fst ch) (snd (snd ch))) chs C).
+  assert (HidC' : c_id O C' = c) by (unfold C'; rewrite fold_col_set_id; eapply find_col_id; exact Ec).
+  apply wf_state_put; [exact Hwf | cbn; eapply find_table_id; exact Ef|].
+  split; [cbn [t_cols]; rewrite put_col_ids by exact HidC'; exact Hnd|].
+  split; [cbn [t_cols]; rewrite put_col_ids by exact HidC'; exact Hnoid|].
+  cbn [t_cols t_rows]. intros c0 C0 Hf r Hr. rewrite find_put_col in Hf by exact HidC'.
+  name_cases c0 c.
+  - subst c0. rewrite Ec in Hf. inversion Hf; subst C0. clear Hf.
+    unfold C'. clear HidC' C'. revert C Ec Hnorm. induction chs as [|[r0 [b a]] chs IH]; intros C Ec Hn; cbn [fold_left fst snd].
+    + apply (Hn _ _ Ec). exact Hr.
+    + (* generalise: any column with the same type whose cells at r are normal *)
+      assert (Hgen : forall (D : column), (forall r1, In r1 (t_rows O T) -> normal_at O (ci_type (c_info O D)) (col_get O D r1)) ->
+                     normal_at O (ci_type (c_info O (fold_left (fun C ch => col_set O C (fst ch) (snd (snd ch))) chs D)))
+                               (col_get O (fold_left (fun C ch => col_set O C (fst ch) (snd (snd ch))) chs D) r)).
+      { clear -L Hr. induction chs as [|[r1 [b1 a1]] chs IH]; intros D HD; cbn [fold_left fst snd]; [apply HD; exact Hr|].
+        apply IH. intros r2 Hr2. rewrite col_get_set. cbn [col_set c_info].
+        destruct (Z.eqb r2 r1); [apply (vnorm_idem O L) | apply HD; exact Hr2]. }
+      apply Hgen. intros r1 Hr1. rewrite col_get_set. cbn [col_set c_info].
+      destruct (Z.eqb r1 r0); [apply (vnorm_idem O L) | apply (Hn _ _ Ec); exact Hr1].
+  - apply (Hnorm _ _ Hf). exact Hr.
+Qed.
+
+Lemma calc_steps_wf : forall calcs m m', wf_state O (m_doc O m) -> steps O m (map calc_event calcs) = Ok m' -> wf_state O (m_doc O m').
+Proof.
+  induction calcs as [|[[t c] chs] rest IH]; intros m m' Hwf H; cbn [map steps calc_event] in H.
+  - inversion H; subst. exact Hwf.
+  - cbn [step] in H. destruct (calc_cells O (m_doc O m) t c chs) as [s1|] eqn:Ec; cbn [bind] in H; [|discriminate].
+    eapply IH; [|exact H]. cbn [m_doc]. eapply calc_cells_wf; eassumption.
+Qed.
+
+Theorem calc_bundle_redo : forall s acts calcs s' out s0,
+  wf_state O s -> names_ok s -> lossless_run O s acts -> names_run acts ->
+  (forall m, steps O (m_init s) (map (Doc O) acts) = Ok m -> calcs_ok m calcs) ->
+  run O s (map (Doc O) acts ++ map calc_event calcs) = Ok (s', out) ->
+  replay_doc O (rev (o_undo O out)) s' = Ok s0 ->
+  exists s1, replay_doc O (o_stored O out) s0 = Ok s1 /\ seq O s1 s'.
+Proof.
+  intros s acts calcs s' out s0 Hwf Hnames Hl Hnr Hcalcs H Hundo.
+  destruct (calc_bundle_undo s acts calcs s' out Hwf Hnames Hl Hnr Hcalcs H) as [s0' [Hu' Hs0]].
+  assert (s0' = s0) by congruence. subst s0'.
+  unfold run in H. fold (m_init s) in H. rewrite !(steps_app O) in H.
+  destruct (steps O (m_init s) (map (Doc O) acts)) as [md|] eqn:Ed; [|discriminate].
+  destruct (docs_phase acts s (m_init s) md (docs_inv_init s Hwf Hnames) Hl Hnr Ed) as [[Htr Hwfd [Hnd_names [Hkeys Hafter]] Hnd] Hstd].
+  specialize (Hcalcs md eq_refl).
+  destruct (steps O md (map calc_event calcs)) as [mc|] eqn:Ec; [|discriminate].
+  assert (Hci0 : calc_inv (m_doc O md) (m_sum O md) md).
+  { constructor.
+    - apply calc_rel_init. exact Hnd.
+    - intros t c r Hg. rewrite nodeltas_delta_of in Hg by exact Hnd. cbn in Hg. congruence.
+    - repeat split; reflexivity. }
+  destruct (calc_phase calcs _ _ md mc Hci0 Hcalcs Ec) as [[Hrel Hlive Hmarks] [Hu Hst]].
+  cbn [steps step] in H.
+  assert (Hlive_d : live_in (m_doc O md) (m_sum O mc)).
+  { intros t c r Hg. eapply existing_calc_rel; [exact Hrel | apply Hlive; exact Hg]. }
+  assert (Hok : all_deltas_ok (m_sum O mc)).
+  { intros t td c cd Htd Hcd Hne.
+    assert (Hdo : delta_of (m_sum O mc) t c = cd) by (unfold delta_of; rewrite Htd, Hcd; reflexivity).
+    destruct cd as [|[r0 x0] cd0] eqn:Ecd; [congruence|].
+    assert (Hg0 : delta_get O (delta_of (m_sum O mc) t c) r0 <> None) by (rewrite Hdo; cbn; rewrite Z.eqb_refl; discriminate).
+    destruct (Hlive_d t c r0 Hg0) as [Td [Cd [Hft [Hfc _]]]].
+    destruct (Hnd_names _ _ Hft) as [Hdt Hdc]. split; [exact Hdt|]. split; [exact (Hdc _ _ Hfc)|].
+    intros r Hg. rewrite <- Hdo in Hg. destruct (Hlive_d t c r Hg) as [Td' [Cd' [Hft' [_ Hr']]]].
+    destruct Hmarks as [_ [_ [_ M4]]]. rewrite M4. eapply Hafter; eassumption. }
+  rewrite (flush_all_undo (m_sum O mc) (m_stored O mc) (m_undo O mc) Hok) in H.
+  cbn in H. inversion H; subst s' out; clear H. cbn [o_stored].
+  rewrite Hst, Hstd. cbn [m_init m_stored app]. rewrite (replay_doc_app O).
+  (* the doc actions, replayed on the undone document *)
+  destruct (steps_docs O acts s [] [] (sum_empty O) md (sum_empty_nodeltas O) Hl Ed) as [U' [Hrun _]].
+  destruct (docs_redo O L acts s (m_doc O md) U' s0 Hrun Hs0) as [sd' [Hrd Hsd]].
+  rewrite Hrd.
+  eapply replay_all_sblocks; try eassumption.
+  eapply calc_steps_wf; eassumption.
+Qed.
+
+Theorem bundle_ok2_redo : forall s es s' out s0,
+  bundle_ok2 s es = true -> run O s es = Ok (s', out) ->
+  replay_doc O (rev (o_undo O out)) s' = Ok s0 ->
+  exists s1, replay_doc O (o_stored O out) s0 = Ok s1 /\ seq O s1 s'.
+Proof.
+  intros s es s' out s0 Hok H Hu. unfold bundle_ok2 in Hok.
+  destruct (split_events es) as [[acts calcs]|] eqn:Es; [|discriminate].
+  rewrite (split_events_sound _ _ _ Es) in H.
+  apply andb_true_iff in Hok. destruct Hok as [Hok H5]. apply andb_true_iff in Hok. destruct Hok as [Hok H4].
+  apply andb_true_iff in Hok. destruct Hok as [Hok H3]. apply andb_true_iff in Hok. destruct Hok as [H1 H2].
+  eapply calc_bundle_redo; try eassumption.
   - apply wf_stateb_sound. exact H1.
   - apply names_okb_sound. exact H2.
   - apply (lossless_runb_sound O). exact H3.
